@@ -1,4 +1,5 @@
 import PppModel.Lemmas.Builder
+import PppModel.Lemmas.BuilderExact
 
 /-!
 # C10 — builder output is the in-order concatenation of what was written, nothing else
@@ -200,6 +201,29 @@ theorem batch_irrelevant_with (vc : UInt8) (t : Transport) (a : Addresses) (pre 
 theorem tlv_pair_same (b : Builder) (k : UInt8) (v : B) :
     b.step (.writePayload (.tlv k v)) = b.step (.writePayload (.pair k v)) ∧
     b.step (.writeTlv k v) = b.step (.writePayload (.tlv k v)) := ⟨rfl, rfl⟩
+
+/-! ### The complete characterisation: when a history succeeds, and with what
+
+`V2.opsOk n ops` (Lemmas/BuilderExact.lean) is a purely arithmetic predicate on
+chunk lengths: the writer's size guard is evaluated at the start of every
+non-empty chunk and refuses it iff the buffer already holds more than
+65535 + 16 bytes; a value with a length over 65535 is refused up front. -/
+
+/-- **C10 / C09, exact form** for `Builder::new`: the history succeeds iff every write
+passes the guard and, with no explicit length in force, the payload fits in 16
+bits; then the output is the reference output; otherwise `build`/a write fails. -/
+theorem run_exact (vc afp : UInt8) (ops : List Op) :
+    (Builder.new vc afp).run ops =
+      if opsOk 16 ops ∧ (lengthInForce ops ≠ none ∨ payloadLen ops ≤ 65535) then reference vc afp .unspec ops
+      else none :=
+  run_exact_new vc afp ops
+
+theorem run_exact_with_addresses (vc : UInt8) (t : Transport) (a : Addresses) (ops : List Op) :
+    (Builder.withAddresses vc t a).run ops =
+      if opsOk (16 + (Spec.V2.addrBytes a).length) ops ∧
+          (lengthInForce ops ≠ none ∨ (Spec.V2.addrBytes a).length + payloadLen ops ≤ 65535)
+      then reference vc (afpByte a.family t) a ops else none :=
+  run_exact_with vc t a ops
 
 /-- Non-vacuity: a three-call history with a reservation and a batch. -/
 example : (Builder.withAddresses 0x21 .stream
